@@ -651,3 +651,259 @@ Fixpoint solo (fuel : nat) (c : cfg) (t : N) : option cfg :=
          | S k => match cstep c t CGo with ROk c' _ => solo k c' t | _ => None end
          end
   end.
+
+(* ------------------------------------------------------------------------------------------ *)
+(* measures (used by the invariants; all computable)                                          *)
+(* ------------------------------------------------------------------------------------------ *)
+Definition cnt (P : bid -> bool) (l : list bid) : nat := length (filter P l).
+Definition onp (p : N) (b : bid) : bool := fst b =? p.
+
+(* blocks a frame holds ("in the hand of a thread inside a free" / owner's private pending list) *)
+Definition fr_blocks (fr : frame) : list bid :=
+  match fr with
+  | RF1 b | RF2 b _ _ | RF3 b | RF4 b _ | RF5 b _ _ => [b]
+  | TC3 _ tl => tl
+  | DP3 _ pend _ => pend
+  | DP4 _ b r _ | DP5 _ b r _ | DP6 _ b r _ => b :: r
+  | _ => []
+  end.
+Definition stk_blocks (stk : list frame) : list bid := flat_map fr_blocks stk.
+
+(* blocks that still have to pass _mi_free_delayed_block's flag reset (the "will be processed" part of
+   the owner's pending list).  skip = the try_use_delayed_free of DP4's block has returned true *)
+Definition d1_fr (skip : bool) (fr : frame) : list bid :=
+  match fr with
+  | DP3 _ pend _ => pend
+  | DP4 _ b r _ => if skip then r else b :: r
+  | DP5 _ b r _ => b :: r
+  | DP6 _ _ r _ => r
+  | _ => []
+  end.
+Definition d1_stk (ret : bool) (stk : list frame) : list bid :=
+  match stk with
+  | [] => []
+  | f :: r => d1_fr ret f ++ flat_map (d1_fr false) r
+  end.
+
+(* is the frame inside the DELAYED_FREEING window of page p (between the first successful CAS and the last) *)
+Definition win_fr (p : N) (fr : frame) : nat :=
+  match fr with
+  | RF3 b | RF4 b _ | RF5 b _ _ => if fst b =? p then 1 else 0
+  | RF6 q | RF7 q _ _ => if q =? p then 1 else 0
+  | _ => 0
+  end%nat.
+(* ... and has already pushed its block on the heap list *)
+Definition pw_fr (p : N) (fr : frame) : nat :=
+  match fr with
+  | RF6 q | RF7 q _ _ => if q =? p then 1 else 0
+  | _ => 0
+  end%nat.
+Fixpoint sum_fr (f : frame -> nat) (stk : list frame) : nat :=
+  match stk with [] => 0 | x :: r => f x + sum_fr f r end%nat.
+
+Fixpoint ftot {V} (f : V -> nat) (m : list (N * V)) : nat :=
+  match m with [] => 0 | (_, v) :: r => f v + ftot f r end%nat.
+
+Definition th_W (P : bid -> bool) (th : thread) : nat :=
+  (cnt P (th_held th) + cnt P (stk_blocks (th_stk th)))%nat.
+Definition mW (c : cfg) (P : bid -> bool) : nat :=
+  (ftot (th_W P) (c_th c) + ftot (fun pg => cnt P (pg_tf pg)) (c_pg c)
+   + ftot (fun hp => cnt P (hp_del hp)) (c_hp c))%nat.
+Definition mF (c : cfg) (P : bid -> bool) : nat :=
+  ftot (fun pg => cnt P (pg_free pg) + cnt P (pg_lfree pg))%nat (c_pg c).
+Definition mD (c : cfg) (P : bid -> bool) : nat :=
+  (ftot (fun th => cnt P (d1_stk (th_ret th) (th_stk th))) (c_th c)
+   + ftot (fun hp => cnt P (hp_del hp)) (c_hp c))%nat.
+Definition mWin (c : cfg) (p : N) : nat := ftot (fun th => sum_fr (win_fr p) (th_stk th)) (c_th c).
+Definition mPw (c : cfg) (p : N) : nat := ftot (fun th => sum_fr (pw_fr p) (th_stk th)) (c_th c).
+
+(* the owner is between the flag reset of _mi_free_delayed_block and the take-over of the thread list *)
+Definition ph_stk (p : N) (ret : bool) (stk : list frame) : nat :=
+  match stk with
+  | DP4 _ b _ _ :: _ => if ret && (fst b =? p) then 1 else 0
+  | FC1 q false :: DP6 _ _ _ _ :: _ => if q =? p then 1 else 0
+  | TC1 q :: FC2 _ false :: DP6 _ _ _ _ :: _ => if q =? p then 1 else 0
+  | TC2 q _ _ :: FC2 _ false :: DP6 _ _ _ _ :: _ => if q =? p then 1 else 0
+  | _ => 0
+  end%nat.
+Definition mPh (c : cfg) (p : N) : nat := ftot (fun th => ph_stk p (th_ret th) (th_stk th)) (c_th c).
+
+(* ------------------------------------------------------------------------------------------ *)
+(* stack shapes                                                                               *)
+(* ------------------------------------------------------------------------------------------ *)
+(* which frame may sit directly on which (None = bottom of the stack) *)
+Definition above_ok (f : frame) (g : option frame) : bool :=
+  match f, g with
+  | (RF1 _ | RF2 _ _ _ | RF3 _ | RF4 _ _ | RF5 _ _ _ | RF6 _ | RF7 _ _ _), None => true
+  | (TU1 p _ _ false _ | TU2 p _ _ false _ _ _), Some (DP4 _ b _ _) => p =? fst b
+  | (TU1 _ _ _ true _ | TU2 _ _ _ true _ _ _), (None | Some (HD3 _ _ _)) => true
+  | (TC1 p | TC2 p _ _ | TC3 p _), Some (FC2 q _) => p =? q
+  | (FC1 p false | FC2 p false), Some (DP6 _ b _ _) => p =? fst b
+  | (FC1 p _ | FC2 p _), Some (HC4 _ _ q _) => p =? q
+  | (FC1 _ _ | FC2 _ _), None => true
+  | PF _, (None | Some (DP3 _ _ _) | Some (HC3 _ _ _)) => true
+  | (DP1 h | DP2 h _ | DP3 h _ _ | DP4 h _ _ _ | DP5 h _ _ _ | DP6 h _ _ _), Some (DA h') => h =? h'
+  | (DP1 h | DP2 h _ | DP3 h _ _ | DP4 h _ _ _ | DP5 h _ _ _ | DP6 h _ _ _), Some (HD2 h' _) => h =? h'
+  | (DP1 _ | DP2 _ _ | DP3 _ _ _ | DP4 _ _ _ _ | DP5 _ _ _ _ | DP6 _ _ _ _), None => true
+  | DA h, Some (HC2 h' _) => h =? h'
+  | DA h, Some (HD4 h') => h =? h'
+  | DA _, None => true
+  | (HC2 _ _ | HC3 _ _ _ | HC4 _ _ _ _ | HD2 _ _ | HD3 _ _ _ | HD4 _), None => true
+  | _, _ => false
+  end.
+Fixpoint stk_ok (stk : list frame) : bool :=
+  match stk with
+  | [] => true
+  | f :: r => above_ok f (match r with [] => None | g :: _ => Some g end) && stk_ok r
+  end.
+
+Definition bottom (stk : list frame) : option frame := match rev stk with [] => None | x :: _ => Some x end.
+Definition hd_bottom (stk : list frame) (h : N) : bool :=
+  match bottom stk with
+  | Some (HD2 h' _) | Some (HD3 h' _ _) | Some (HD4 h') => h' =? h
+  | _ => false
+  end.
+(* the owner is inside _mi_page_queue_append for page p of heap h (xheap stored, spinning on the flag) *)
+Definition absorbing (stk : list frame) (p h : N) : bool :=
+  match stk with
+  | (TU1 q _ _ true _ | TU2 q _ _ true _ _ _) :: HD3 h' _ _ :: _ => (q =? p) && (h' =? h)
+  | _ => false
+  end.
+
+(* ------------------------------------------------------------------------------------------ *)
+(* boolean invariant checkers                                                                 *)
+(* ------------------------------------------------------------------------------------------ *)
+Definition keys {V} (m : list (N * V)) : list N := map fst m.
+Fixpoint nodup_b (l : list bid) : bool :=
+  match l with [] => true | x :: r => negb (mem_bid x r) && nodup_b r end.
+Definition memN (x : N) (l : list N) : bool := existsb (N.eqb x) l.
+
+Definition th_blocks (th : thread) : list bid := th_held th ++ stk_blocks (th_stk th).
+Definition pg_blocks (pg : page) : list bid := pg_tf pg ++ pg_free pg ++ pg_lfree pg.
+Definition all_blocks (c : cfg) : list bid :=
+  flat_map (fun kv => th_blocks (snd kv)) (c_th c) ++ flat_map (fun kv => pg_blocks (snd kv)) (c_pg c)
+  ++ flat_map (fun kv => hp_del (snd kv)) (c_hp c).
+(* pages mentioned anywhere *)
+Definition fr_page (fr : frame) : list N :=
+  match fr with
+  | RF6 p | RF7 p _ _ | TU1 p _ _ _ _ | TU2 p _ _ _ _ _ _ | TC1 p | TC2 p _ _ | TC3 p _ | FC1 p _ | FC2 p _
+  | PF p | HC4 _ _ p _ => [p]
+  | _ => []
+  end.
+Definition all_pages (c : cfg) : list N :=
+  keys (c_pg c) ++ map fst (all_blocks c) ++ flat_map (fun kv => flat_map fr_page (th_stk (snd kv))) (c_th c).
+
+Definition wf_b (c : cfg) : bool := fkeys_nodup (c_th c) && fkeys_nodup (c_pg c) && fkeys_nodup (c_hp c).
+(* I_uniq: every block is in at most one place *)
+Definition uniq_b (c : cfg) : bool := nodup_b (all_blocks c).
+(* I_range: a block in a place belongs to a live page and is below its capacity *)
+Definition range_b (c : cfg) : bool :=
+  forallb (fun b => pg_alive (getp c (fst b)) && (snd b <? pg_cap (getp c (fst b)))) (all_blocks c).
+(* I_count: used = blocks in non-free places; capacity = all blocks of the page *)
+Definition count_b (c : cfg) : bool :=
+  forallb (fun p => let pg := getp c p in
+             (pg_used pg =? N.of_nat (mW c (onp p)))
+             && (pg_cap pg =? N.of_nat (mW c (onp p) + mF c (onp p)))
+             && (pg_cap pg <=? pg_res pg) && (pg_res pg <? 65536)) (all_pages c).
+(* I_local: the lists of a page contain blocks of that page only *)
+Definition local_b (c : cfg) : bool :=
+  forallb (fun kv => forallb (onp (fst kv)) (pg_blocks (snd kv))) (c_pg c)
+  && forallb (fun kv => forallb (fun fr => match fr with TC3 p tl => forallb (onp p) tl | _ => true end)
+                                (th_stk (snd kv))) (c_th c).
+(* I_win: flag DELAYED_FREEING <-> exactly one thread in the window *)
+Definition win_b (c : cfg) : bool :=
+  forallb (fun p => Nat.eqb (mWin c p) (if flag_eqb (pg_flag (getp c p)) Freeing then 1 else 0)%nat) (all_pages c).
+(* I_nd: types.h:313-319 *)
+Definition nd_b (c : cfg) : bool :=
+  forallb (fun p => negb (flag_eqb (pg_flag (getp c p)) NoD || Nat.leb 1 (mPw c p))
+                    || Nat.leb 1 (mD c (onp p))) (all_pages c).
+(* I_tfl: a non-empty thread list under USE_DELAYED_FREE is about to be noticed *)
+Definition tfl_b (c : cfg) : bool :=
+  forallb (fun p => negb (negb (isnil (pg_tf (getp c p))) && flag_eqb (pg_flag (getp c p)) UseD)
+                    || Nat.leb 1 (mD c (onp p) + mPh c p)) (all_pages c).
+Definition page_eqb0 (pg : page) : bool :=
+  negb (pg_alive pg) && (pg_tid pg =? 0) && flag_eqb (pg_flag pg) UseD && isnil (pg_tf pg)
+  && oN_eqb (pg_heap pg) None && isnil (pg_free pg) && isnil (pg_lfree pg) && (pg_used pg =? 0)
+  && (pg_cap pg =? 0) && (pg_res pg =? 0) && negb (pg_full pg).
+Definition dead_b (c : cfg) : bool :=
+  forallb (fun kv => pg_alive (snd kv) || page_eqb0 (snd kv)) (c_pg c).
+Definition pheap_b (c : cfg) : bool :=
+  forallb (fun kv => negb (pg_alive (snd kv)) ||
+             match pg_heap (snd kv) with Some h => hown (geth c h) (pg_tid (snd kv)) | None => false end) (c_pg c).
+Definition heaps_b (c : cfg) : bool :=
+  forallb (fun kv => match th_backing (snd kv) with
+                     | Some bk => hown (geth c bk) (fst kv) && hp_backing (geth c bk)
+                     | None => true end) (c_th c)
+  && forallb (fun kv => let hp := snd kv in
+                (negb (hp_alive hp && hp_backing hp) || oN_eqb (th_backing (gett c (hp_owner hp))) (Some (fst kv)))
+                && (hp_alive hp || isnil (hp_del hp))) (c_hp c).
+(* a delayed / pending block belongs to a page of the heap's owner, and to that heap unless it is being absorbed *)
+Definition del_ok (c : cfg) (h : N) (b : bid) : bool :=
+  let hp := geth c h in let pg := getp c (fst b) in
+  hp_alive hp && (pg_tid pg =? hp_owner hp)
+  && (oN_eqb (pg_heap pg) (Some h) || hd_bottom (th_stk (gett c (hp_owner hp))) h).
+Definition del_b (c : cfg) : bool :=
+  forallb (fun kv => forallb (del_ok c (fst kv)) (hp_del (snd kv))) (c_hp c).
+Definition fr_ok (c : cfg) (t : N) (th : thread) (fr : frame) : bool :=
+  match fr with
+  | TU1 p _ _ _ _ | TU2 p _ _ _ _ _ _ | TC1 p | TC2 p _ _ | FC1 p _ | FC2 p _ | HC4 _ _ p _ => own (getp c p) t
+  | TC3 p tl => own (getp c p) t && forallb (onp p) tl
+  | PF p => own (getp c p) t && (pg_used (getp c p) =? 0)
+  | DP1 h | DP2 h _ | DA h | HC2 h _ | HC3 h _ _ => hown (geth c h) t
+  | DP3 h pend _ => hown (geth c h) t && forallb (del_ok c h) pend
+  | DP4 h b r _ | DP5 h b r _ | DP6 h b r _ => hown (geth c h) t && forallb (del_ok c h) (b :: r)
+  | HD2 h bk => hown (geth c h) t && negb (hp_backing (geth c h)) && oN_eqb (th_backing th) (Some bk)
+  | HD3 h bk ps => hown (geth c h) t && negb (hp_backing (geth c h)) && oN_eqb (th_backing th) (Some bk)
+                   && forallb (fun p => own (getp c p) t) ps
+  | HD4 h => hown (geth c h) t && negb (hp_backing (geth c h))
+  | RF4 b h | RF5 b h _ =>
+    let pg := getp c (fst b) in
+    hown (geth c h) (pg_tid pg)
+    && (oN_eqb (pg_heap pg) (Some h) || absorbing (th_stk (gett c (pg_tid pg))) (fst b) h)
+  | _ => true
+  end.
+Definition frames_b (c : cfg) : bool :=
+  forallb (fun kv => stk_ok (th_stk (snd kv)) && forallb (fr_ok c (fst kv) (snd kv)) (th_stk (snd kv))) (c_th c).
+(* mi_heap_delete: pages still to be moved; nothing is left behind when the heap is freed *)
+Definition has_af (stk : list frame) : bool :=
+  existsb (fun fr => match fr with DP3 _ _ af | DP4 _ _ _ af | DP6 _ _ _ af => af | _ => false end) stk.
+Definition hd_ok (c : cfg) (th : thread) : bool :=
+  match bottom (th_stk th) with
+  | Some (HD3 h _ ps) =>
+    forallb (fun kv => negb (pg_alive (snd kv) && oN_eqb (pg_heap (snd kv)) (Some h)) || memN (fst kv) ps) (c_pg c)
+  | Some (HD4 h) =>
+    forallb (fun kv => negb (pg_alive (snd kv) && oN_eqb (pg_heap (snd kv)) (Some h))) (c_pg c)
+    && (negb (match th_stk th with
+              | [HD4 _] => true
+              | [DA _; HD4 _] => th_ret th
+              | stk => has_af stk
+              end) || isnil (hp_del (geth c h)))
+  | _ => true
+  end.
+Definition hd_b (c : cfg) : bool := forallb (fun kv => hd_ok c (snd kv)) (c_th c).
+
+Definition inv_b (c : cfg) : bool :=
+  wf_b c && uniq_b c && range_b c && count_b c && local_b c && win_b c && nd_b c && tfl_b c && dead_b c
+  && pheap_b c && heaps_b c && del_b c && frames_b c && hd_b c.
+(* which part fails (0 = none), for diagnostics *)
+Definition inv_fail (c : cfg) : N :=
+  if negb (wf_b c) then 1 else if negb (uniq_b c) then 2 else if negb (range_b c) then 3
+  else if negb (count_b c) then 4 else if negb (local_b c) then 5 else if negb (win_b c) then 6
+  else if negb (nd_b c) then 7 else if negb (tfl_b c) then 8 else if negb (dead_b c) then 9
+  else if negb (pheap_b c) then 10 else if negb (heaps_b c) then 11 else if negb (del_b c) then 12
+  else if negb (frames_b c) then 13 else if negb (hd_b c) then 14 else 0.
+Definition sinv_b (s : state) : bool := match s with Err _ => false | Ok c => inv_b c end.
+
+(* quiescence: every thread idle *)
+Definition quiescent (c : cfg) : bool := forallb (fun kv => isnil (th_stk (snd kv))) (c_th c).
+(* blocks of page p held by programs *)
+Definition live_count (c : cfg) (p : N) : nat := ftot (fun th => cnt (onp p) (th_held th)) (c_th c).
+(* the result C08 promises after a forced collect of heap h at quiescence *)
+Definition collected_b (c0 c : cfg) (h : N) : bool :=
+  isnil (hp_del (geth c h))
+  && forallb (fun kv =>
+       let p := fst kv in let pg := getp c p in
+       negb (oN_eqb (pg_heap (snd kv)) (Some h)) ||
+       (if Nat.eqb (live_count c0 p) 0 then negb (pg_alive pg)
+        else pg_alive pg && isnil (pg_tf pg) && (pg_used pg =? N.of_nat (live_count c0 p))))
+     (c_pg c0).
